@@ -1110,8 +1110,8 @@ impl VM {
                 if let Some(ptr) = result_ptr {
                     vm.ops.jump(*ptr)?;
                     vm.run(env)?;
-                    let (result_val, result_pos) = vm.pop()?;
-                    self.push(result_val, result_pos)?;
+                    let (result_val, _) = vm.pop()?;
+                    self.push(result_val, pos)?;
                 } else {
                     self.push(Rc::new(vm.symbols_to_tuple(false)), pos)?;
                 }
